@@ -3,9 +3,10 @@
 // watermark starts equal to the sequence counter -- nothing is in flight at open -- and the first timestamp that will be handed
 // out (seq_no + 1) lies above every timestamp already in the tree and above everything log recovery replayed, so a new write
 // is always newer than what the store held when it was opened.
-// ASSUMED: when the store is opened no batch is in flight (axiom_nothing_in_flight_at_open); KeyValueStore::recover returns
-// the biggest recovered timestamp and LsmTree::max_timestamp the biggest one in the tree (the latter is a two-level max loop:
-// read, not extracted); timestamps stay below 2^64 - 2.
+// ASSUMED: when the store is opened no batch is in flight (axiom_nothing_in_flight_at_open); LsmTree::max_timestamp returns the
+// biggest timestamp in the tree (a two-level max loop: read, not extracted); timestamps stay below 2^64 - 2.  That
+// KeyValueStore::recover returns the biggest recovered timestamp is the contract of the stub here and the postcondition
+// proved on the whole function in unit lsmtk_recover.
 use vstd::prelude::*;
 verus! {
 global size_of usize == 8;
